@@ -73,6 +73,21 @@ impl super::Authorizer {
             Some(execution_time).filter(|_| execution_time > Duration::default());
 
         let mut public_key_to_block_id: HashMap<usize, Vec<usize>> = HashMap::new();
+        // every block is registered under its external key before any scope is resolved:
+        // a scope can name the key of a later block
+        for (i, block) in world.blocks.iter().enumerate() {
+            if let Some(key) = block.external_key.as_ref() {
+                public_key_to_block_id
+                    .entry(
+                        authorizer
+                            .symbols
+                            .public_keys
+                            .insert(&PublicKey::from_proto(key)?) as usize,
+                    )
+                    .or_default()
+                    .push(i);
+            }
+        }
         let mut blocks = Vec::new();
         for (i, block) in world.blocks.iter().enumerate() {
             let token_symbols = if block.external_key.is_none() {
@@ -88,13 +103,6 @@ impl super::Authorizer {
             // in a snapshot every block, third-party or not, refers to the snapshot's tables
             if block.external_key.is_some() {
                 block.symbols = token_symbols.clone();
-            }
-
-            if let Some(key) = block.external_key.as_ref() {
-                public_key_to_block_id
-                    .entry(authorizer.symbols.public_keys.insert(key) as usize)
-                    .or_default()
-                    .push(i);
             }
 
             load_and_translate_block(
